@@ -431,6 +431,10 @@ def c15(ck, tmp):
     mid_graph(ck, rng, tmp)
     if not quick:
         big_graph(ck)
+    # the helper functions of gfa.py beyond the property's anchors (in_direction/children, remove_lonely_nodes, graph_from_comp,
+    # list_is_path, get_path, get_contig_length, return_gfa_path, is_equal_to): model Model/GraphExtra.lean, theorems Props/C15Extra.lean
+    import p_graph_extra
+    p_graph_extra.c15_extra(ck, tmp, 300 if quick else 6000)
 
 
 def mid_graph(ck, rng, tmp):
@@ -526,7 +530,7 @@ def main(prop):
     ck = Check(prop)
     ck.trusted = ["Lean 4.33.0 kernel", "axioms: propext, Classical.choice, Quot.sound (audited)", "correspondence harness + JSON driver",
                   "tokenisation of GFA text (strip/split) and of path strings (re.findall) modelled at token level: covered by correspondence only"]
-    ck.lean_build((["Gaftools.Props.C15Hist", "Gaftools.Props.C15Bicc", "Gaftools.Props.C15Bicc2"] if prop == "C15" else ["Gaftools.Props.%s" % prop]) + ["Gaftools.Props.TieA"])
+    ck.lean_build((["Gaftools.Props.C15Hist", "Gaftools.Props.C15Bicc", "Gaftools.Props.C15Bicc2", "Gaftools.Props.C15Extra"] if prop == "C15" else ["Gaftools.Props.%s" % prop]) + ["Gaftools.Props.TieA"])
     ck.audit("%s.lean" % prop)
     tmp = tempfile.mkdtemp(prefix="gtv-graph-")
     try:
